@@ -224,8 +224,10 @@ def run_check(prop, tier, seed):
         'wall_s': round(time.time() - t0, 2),
         'violations': len(violations),
     }
-    os.makedirs(os.path.join(VERIF, 'evidence'), exist_ok=True)
-    with open(os.path.join(VERIF, 'evidence', prop + '.json'), 'w') as f:
+    # evidence describes runs against /repo itself; runs against a scratch tree (VERIF_REPO) write elsewhere
+    evdir = os.path.join(VERIF, 'evidence') if os.path.realpath(REPO) == '/repo' else os.path.join(VERIF, '.build', 'evidence-scratch')
+    os.makedirs(evdir, exist_ok=True)
+    with open(os.path.join(evdir, prop + '.json'), 'w') as f:
         json.dump(evidence, f, indent=1, sort_keys=True, default=repr)
     for line in out_lines:
         print(line)
